@@ -408,10 +408,93 @@ def _ctx_of(func, dom, bid, skip=None):
             if _terminating(func, other):
                 continue
             if tdom and not fdom:
-                ctx.append(canon(t['fullcond']))
+                ctx.append(canon(expand(func, t['fullcond'], d)))
             elif fdom and not tdom:
-                ctx.append(canon(t['fullcond'], True))
+                ctx.append(canon(expand(func, t['fullcond'], d), True))
     return ctx
+
+
+def scoped_decls(func):
+    """{name: [(block, init expr)]} for locals that are only ever defined by declarations with a call-free initialiser (several
+    declarations of one name in sibling scopes are fine), never assigned, incremented or address-taken"""
+    key = ('scoped', func.tu, func.name)
+    if key in _SCOPED:
+        return _SCOPED[key]
+    decls = {}
+    bad = set()
+    for bid, _, ev in func.events():
+        if ev['k'] == 'decl':
+            for d in ev['d']:
+                i_ = d.get('init')
+                if i_ is not None and not cf.calls_in(i_) and cf.strip_casts(i_).get('k') != 'initlist':
+                    decls.setdefault(d['n'], []).append((bid, i_))
+                else:
+                    bad.add(d['n'])
+        elif ev['k'] == 'assign':
+            l = cf.strip_casts(ev['lhs'])
+            if isinstance(l, dict) and l.get('k') == 'ref':
+                bad.add(l['n'])
+        for k in ('e', 'lhs', 'rhs', 'val'):
+            if ev.get(k) is not None:
+                for n in cf.walk(ev[k]):
+                    if n.get('k') == 'un' and n.get('op') == '&':
+                        x = cf.strip_casts(n['e'])
+                        if isinstance(x, dict) and x.get('k') == 'ref':
+                            bad.add(x['n'])
+    pn = {p['name'] for p in func.params}
+    res = {n: v for n, v in decls.items() if n not in bad and n not in pn}
+    _SCOPED[key] = res
+    return res
+
+
+_SCOPED = {}
+
+
+def expand(func, e, bid, depth=0):
+    """tree with every local that has exactly one dominating call-free declaration replaced by its initialiser"""
+    sd = scoped_decls(func)
+    if not sd or depth > 4:
+        return e
+    dom = func.dominators()
+
+    def go(x):
+        if isinstance(x, list):
+            return [go(y) for y in x]
+        if not isinstance(x, dict):
+            return x
+        if x.get('k') == 'ref' and not x.get('p') and not x.get('g') and x.get('n') in sd:
+            cands = [(b, i_) for b, i_ in sd[x['n']] if b in dom.get(bid, ())]
+            if len(cands) == 1:
+                return expand(func, cands[0][1], cands[0][0], depth + 1)
+            return x
+        return {k: (go(v) if isinstance(v, (dict, list)) else v) for k, v in x.items()}
+    return go(e)
+
+
+def split_ternary(e, limit=3):
+    """[(list of (condition tree, polarity), tree without ?:)] — a condition over `c ? a : b` is the condition over a under c and
+    over b under !c; all occurrences of the same selector are decided together"""
+    sels = {}
+    for n in cf.walk(e):
+        if n.get('k') == 'cond':
+            sels.setdefault(canon(n['c']), n['c'])
+    if not sels or len(sels) > limit:
+        return [([], e)]
+    keys = sorted(sels)
+
+    def repl(x, pol):
+        if isinstance(x, list):
+            return [repl(y, pol) for y in x]
+        if isinstance(x, dict):
+            if x.get('k') == 'cond' and canon(x['c']) in pol:
+                return repl(x['t'] if pol[canon(x['c'])] else x['f'], pol)
+            return {k: (repl(v, pol) if isinstance(v, (dict, list)) else v) for k, v in x.items()}
+        return x
+    out = []
+    for mask in range(1 << len(keys)):
+        pol = {k: bool(mask >> i & 1) for i, k in enumerate(keys)}
+        out.append(([(sels[k], pol[k]) for k in keys], repl(e, pol)))
+    return out
 
 
 HELPER_SKIP = {'is_job_invalid', 'is_job_invalid_light'}
@@ -433,14 +516,19 @@ def _catalogue(func, depth=0):
             if t and t['kind'] == 'IfStmt' and func.blocks[p]['succ'][0] == bid and 'fullcond' in t:
                 own = (p, t['fullcond'])
         ctx = _ctx_of(func, dom, bid, own[0] if own else None)
-        g = {
-            'block': bid, 'err': cf.strip_casts(err).get('enum') or lv(err), 'errval': cf.evalc(err),
-            'ret': cf.evalc(ret) if ret is not None else None,
-            'cond': canon(own[1]) if own else None, 'ctx': sorted(ctx), 'cases': cctx.get(bid, {}),
-            'loc': cev.get('sloc') or cev['loc'], 'unconditional': own is None, 'expr': own[1] if own else None,
-            'catoms': case_atoms(func, cctx.get(bid, {})),
-        }
-        out.append(g)
+        alts = [([], None)]
+        if own:
+            alts = split_ternary(expand(func, own[1], own[0]))
+        for extra, tree in alts:
+            xc = [canon(c_, not pol) for c_, pol in extra]
+            g = {
+                'block': bid, 'err': cf.strip_casts(err).get('enum') or lv(err), 'errval': cf.evalc(err),
+                'ret': cf.evalc(ret) if ret is not None else None,
+                'cond': canon(tree) if own else None, 'ctx': sorted(ctx + xc), 'cases': cctx.get(bid, {}),
+                'loc': cev.get('sloc') or cev['loc'], 'unconditional': own is None, 'expr': own[1] if (own and not extra) else None,
+                'catoms': case_atoms(func, cctx.get(bid, {})),
+            }
+            out.append(g)
     # checks factored out into a helper: `if (helper(args)) return <reject>;` contributes the helper's guards, with the helper's
     # parameters expressed through the arguments, under the context of the call
     P = cf.PROGRAM[0]
